@@ -1811,11 +1811,14 @@ func (p *Parser) parseLit() ast.Expr {
 		return p.parseBracedConstructor()
 	case token.TokenIdent:
 		id := p.Token
-		switch {
-		case id.IsKeywordLike("SAFE_CAST"):
-			return p.parseCastExpr()
-		case id.IsKeywordLike("REPLACE_FIELDS"):
-			return p.parseReplaceFieldsExpr()
+		// SAFE_CAST and REPLACE_FIELDS are not reserved: without "(" they are ordinary names (a column `SAFE_CAST` is printed unquoted).
+		if p.lookaheadToken().Kind == "(" {
+			switch {
+			case id.IsKeywordLike("SAFE_CAST"):
+				return p.parseCastExpr()
+			case id.IsKeywordLike("REPLACE_FIELDS"):
+				return p.parseReplaceFieldsExpr()
+			}
 		}
 
 		if p.lookaheadCallExpr() {
